@@ -78,6 +78,14 @@ type Mint struct {
 	// mint quotes (state polls, the invoice subscription, minting), so that a
 	// quote cannot be issued twice for one payment.
 	mintQuotesMu *sync.Mutex
+
+	// activeMelts holds the ids of the melt quotes that a melt request or a
+	// state check of this process is working on: at most one of them at a time.
+	// While a melt request is between marking the proofs as pending and hearing
+	// back from the lightning backend, the backend may not know the payment yet
+	// (or only know an earlier failed attempt), so a state check must not
+	// resolve the quote from what the backend says.
+	activeMelts *sync.Map
 }
 
 func LoadMint(config Config) (*Mint, error) {
@@ -133,6 +141,7 @@ func LoadMint(config Config) (*Mint, error) {
 		cancel:       cancel,
 		proofsMu:     &sync.Mutex{},
 		mintQuotesMu: &sync.Mutex{},
+		activeMelts:  &sync.Map{},
 	}
 
 	// if no keysets stored, just create a new one
@@ -726,6 +735,23 @@ func (m *Mint) GetMeltQuoteState(ctx context.Context, quoteId string) (storage.M
 
 	// if quote is pending, check with backend if status of payment has changed
 	if meltQuote.State == nut05.Pending {
+		if _, active := m.activeMelts.LoadOrStore(quoteId, struct{}{}); active {
+			// the melt request (or another state check) is still working on
+			// the quote and will settle it
+			return meltQuote, nil
+		}
+		defer m.activeMelts.Delete(quoteId)
+
+		// whoever worked on the quote until now may have settled it
+		meltQuote, err = m.db.GetMeltQuote(quoteId)
+		if err != nil {
+			errmsg := fmt.Sprintf("error getting melt quote from db: %v", err)
+			return storage.MeltQuote{}, cashu.BuildCashuError(errmsg, cashu.DBErrCode)
+		}
+		if meltQuote.State != nut05.Pending {
+			return meltQuote, nil
+		}
+
 		m.logDebugf("checking status of payment with hash '%v' for melt quote '%v'",
 			meltQuote.PaymentHash, meltQuote.Id)
 
@@ -855,6 +881,12 @@ func (m *Mint) MeltTokens(ctx context.Context, meltTokensRequest nut05.PostMeltB
 		Yhex := hex.EncodeToString(Y.SerializeCompressed())
 		Ys[i] = Yhex
 	}
+
+	// only one melt request (or state check) works on a quote at a time
+	if _, active := m.activeMelts.LoadOrStore(meltTokensRequest.Quote, struct{}{}); active {
+		return storage.MeltQuote{}, cashu.QuotePending
+	}
+	defer m.activeMelts.Delete(meltTokensRequest.Quote)
 
 	meltQuote, err := m.db.GetMeltQuote(meltTokensRequest.Quote)
 	if err != nil {
